@@ -102,6 +102,9 @@ def build(parts, boundary: bytes, nl: bytes = b"\r\n", preamble: bytes = b"", ep
     # a delimiter preceded by an *extra* line break char (payload ending in CR before LF style etc.)
     if found != intended:
         return None
+    # a preamble that itself begins with a delimiter line (no line break needed at offset 0) is not a preamble
+    if preamble and re.match(rb"--" + re.escape(boundary) + rb"(?:--|[ \t]*(?:\r\n|\r|\n))", body):
+        return None
     if not parts and not preamble:
         pass
     # payload adjacent-newline ambiguity: payload ending in CR followed by an LF-style break merges
